@@ -156,4 +156,13 @@ def replay(ctx, case):
 
 
 def run(ctx):
+    # deterministic sweep: every rule template x every coefficient coincidence (root and nested position)
+    texts = G.sweep_texts(["BM"])
+    for i, t in enumerate(texts):
+        if i % ctx.nshards != ctx.shard:
+            continue
+        ctx.count("evaluations")
+        ctx.count("sweep:cases")
+        check_equation(ctx, {"text": t, "pre": [], "family": "sweep"})
+    ctx.info["template_sweep_size"] = len(texts)
     hyp_run(ctx, "equations", equation_case(), check_equation, ctx.n(1500, 10000))
